@@ -290,6 +290,7 @@ class Interp:
         self.prefix = []
         self.work = []
         self.feas_queries = 0
+        self.glob_overrides = {}                  # id(module __dict__) -> dict to use instead (stubs in a module's namespace)
         self.MIN = -(1 << (width - 1))
         self.MAX = (1 << (width - 1)) - 1
 
@@ -1246,7 +1247,7 @@ class Interp:
                     env.vars[name] = cell.cell_contents
             else:
                 env = None
-            return self.call_node(node, args, kwargs, f.__globals__, env)
+            return self.call_node(node, args, kwargs, self.glob_overrides.get(id(f.__globals__), f.__globals__), env)
         if isinstance(f, types.MethodType) and not getattr(f.__func__, '_pyk_native', False) \
                 and isinstance(f.__func__, types.FunctionType) and any(is_sym(a) for a in args):
             return self.call(f.__func__, [f.__self__] + list(args), kwargs)
